@@ -272,6 +272,44 @@ func checkC06(w *Worker) {
 				map[string]interface{}{"cmd": c.shell(), "observed": r.String(), "expected": ref.String(), "begin": b, "end": e})
 		}
 	})
+	// every special scenario (harness/specials.go) x bounds taken from its own days x every period-aware command
+	c06Specials := specialScenarios()
+	w.Explore("special-scenarios", ExploreOpts{ShardDepth: 3}, func(x *Exec) {
+		sc := c06Specials[x.Choose(len(c06Specials), "input:scenario")]
+		cmd := c06Cmds[x.Choose(len(c06Cmds), "input:command")]
+		ds := []string{""}
+		seen := map[string]bool{}
+		for _, d := range sc.Log {
+			if !seen[d.Date] {
+				seen[d.Date] = true
+				ds = append(ds, d.Date)
+			}
+		}
+		b := ds[x.Choose(len(ds), "input:begin")]
+		e := ds[x.Choose(len(ds), "input:end")]
+		if b == "" && e == "" {
+			x.Case("skip: no period", false)
+			return
+		}
+		book := renderBook(sc.Book)
+		args := []string{"--no-color", "--today", c06Today}
+		if b != "" {
+			args = append(args, "-b", b)
+		}
+		if e != "" {
+			args = append(args, "-e", e)
+		}
+		c := appCase{Args: append(args, cmd.Args...), Files: map[string]string{"food.yaml": book, "log.yaml": renderLog(sc.Log)}}
+		r := runApp(c)
+		sel := refFilter(sc.Log, b, e)
+		ref := runApp(appCase{Args: append([]string{"--no-color", "--today", c06Today}, cmd.Args...), Files: map[string]string{"food.yaml": book, "log.yaml": renderLog(sel)}})
+		x.Obs(r.Key())
+		x.Case(fmt.Sprint(sc.Name, cmd.Name, b, e), len(sel) > 0 && len(sel) < len(sc.Log))
+		if r.Key() != ref.Key() {
+			x.Violate("C06|"+cmd.Name+"|special-scenario|wrong-selection", fmt.Sprintf("scenario %s: `%s`\nprinted:\n%s\nwith the other days deleted and no period the same command prints:\n%s", sc.Name, tailStr(c.shell(), 1500), tailStr(r.String(), 1500), tailStr(ref.String(), 1500)),
+				map[string]interface{}{"scenario": sc.Name, "begin": b, "end": e, "command": cmd.Name})
+		}
+	})
 	// every period-aware command shape of the master list (global flags), on the window with a reduced set of bounds
 	shapes := shapeArgs(func(s cmdShape) bool { return s.Period })
 	// zones with daylight-saving rules: keyword bounds are calendar arithmetic on --today, and a transition between
